@@ -111,6 +111,10 @@ func genJoin(engine, prop string, r *simrt.SplitMix) *JoinSc {
 		sc.Class = "eager"
 	case "C16":
 		sc.Class = "stop"
+	case "C19", "C20":
+		if engine == "join1" && r.Intn(2) == 0 {
+			sc.Class = "stop"
+		}
 	case "C08":
 		// v1: Stop/cancel landing between delivery and release
 		if engine == "join1" && r.Intn(2) == 0 {
